@@ -717,6 +717,68 @@ example : (Ws.Handshake.accept { version := "2" } (fun _ => []) none (some "chat
     (Ws.Handshake.accept { version := "2", subprotocols := some ["chat".b] } (fun _ => []) none (some "chat".b) []) =
       .ok (200, [("sec-websocket-protocol".b, "chat".b)]) := ⟨by rfl, by rfl⟩
 
+/-! ### HTTP/1: early hints and pushes do not exist (round 6, coverage widening)
+
+`H11Protocol.stream_send` has a branch `elif isinstance(event, InformationalResponse): pass  # Ignore for HTTP/1`.  No message of
+an application can take an HTTP/1 stream there: the version sets read off the source (`Consts.http_EARLY_HINTS_VERSIONS`,
+`Consts.http_PUSH_VERSIONS`) hold neither "1.0" nor "1.1", so the message is refused with nothing handed over.  (The harness
+hands the event to the real protocol object directly to see that the branch writes nothing: C12.py, family `wire`.) -/
+
+/-- the HTTP versions an HTTP/1 connection hands to its stream (`H11Protocol` passes h11's `http_version` on) -/
+def Http1Version (v : String) : Prop := v = "1.0" ∨ v = "1.1"
+
+theorem http1_not_in_h2_only_sets (v : String) (hv : Http1Version v) :
+    Http.inVersions v Consts.http_EARLY_HINTS_VERSIONS = false ∧ Http.inVersions v Consts.http_PUSH_VERSIONS = false := by
+  rcases hv with rfl | rfl <;> decide
+
+theorem early_hint_http1_rejected (s : Http.S) (links : Option (List HV)) (hv : Http1Version s.version) :
+    Http.appSend s (some (.earlyHint links)) = (s, [], some .unexpectedMessage) := by
+  have h := (http1_not_in_h2_only_sets s.version hv).1
+  simp [Http.appSend, h]
+
+theorem push_http1_rejected (s : Http.S) (path : Option HV) (headers : Option (List (HV × HV))) (hv : Http1Version s.version) :
+    Http.appSend s (some (.push path headers)) = (s, [], some .unexpectedMessage) := by
+  have h := (http1_not_in_h2_only_sets s.version hv).2
+  simp [Http.appSend, h]
+
+def isInfoOrPush : Http.Ev → Bool
+  | .info .. => true
+  | .push .. => true
+  | _ => false
+
+def noInfoOrPush (l : List Http.Ev) : Bool := l.all (fun e => !isInfoOrPush e)
+
+theorem bodyEv_no_info_or_push (b : Option HV) (evs : List Http.Ev) (h : Http.bodyEv b = .ok evs) : noInfoOrPush evs = true := by
+  unfold Http.bodyEv at h
+  (repeat' split at h) <;> simp_all [noInfoOrPush, isInfoOrPush] <;> (try (subst h; simp))
+
+theorem bodyPart_no_info_or_push (c : Bool) (b : Option HV) (evs : List Http.Ev)
+    (h : (if c = true then Except.ok [] else Http.bodyEv b) = Except.ok evs) : noInfoOrPush evs = true := by
+  cases c
+  · exact bodyEv_no_info_or_push b evs (by simpa using h)
+  · simp at h; subst h; rfl
+
+theorem http1_never_emits_info_or_push (s : Http.S) (m : Option Http.Msg) (hv : Http1Version s.version) :
+    noInfoOrPush (Http.appSend s m).2.1 = true := by
+  have h1 := (http1_not_in_h2_only_sets s.version hv).1
+  have h2 := (http1_not_in_h2_only_sets s.version hv).2
+  cases m with
+  | none => simp only [Http.appSend]; (repeat' split) <;> simp [noInfoOrPush, isInfoOrPush]
+  | some m =>
+    cases m with
+    | body body more =>
+      simp only [Http.appSend, Http.sendClosed]
+      (repeat' split) <;> (try simp [noInfoOrPush, isInfoOrPush]) <;>
+        (have := bodyPart_no_info_or_push _ _ _ (by assumption); simpa [noInfoOrPush, isInfoOrPush] using this)
+    | _ => simp only [Http.appSend, Http.sendClosed, h1, h2] <;> (repeat' split) <;> simp_all [noInfoOrPush, isInfoOrPush]
+/-- non-vacuity of the HTTP/1 statements: HTTP/1.1, early hint and push before the response, then the response itself -/
+example :
+    let s : Http.S := { method := "GET", version := "1.1" }
+    Http.appSend s (some (.earlyHint (some [.bytes "</s.css>".b]))) = (s, [], some .unexpectedMessage) ∧
+    Http.appSend s (some (.push (some (.str "/p")) (some []))) = (s, [], some .unexpectedMessage) ∧
+    (Http.appSend s (some (.start (some 200) (some []) false))).2 = ([.response 200 []], none) ∧
+    (Http.appSend { s with version := "2" } (some (.earlyHint (some [.bytes "</s.css>".b])))).2 = ([.info 103 [("link".b, "</s.css>".b)]], none) := by decide
+
 /-- non-vacuity: a concrete HTTP/2 state in which a late push, a second start and a body with a `str` payload are all
     rejected without effect, and a CR/LF header is refused before anything is emitted -/
 example :
